@@ -569,6 +569,10 @@ def run(ctx) -> None:
     ctx.guard(r11_12)
     from .c12 import r12_2
     ctx.guard_as("R11.13", r12_2)
+    from .c19 import r19_8
+    ctx.guard_as("R11.17", r19_8)  # "identical public and private material": each JWK integer reaches its own slot of the pyca numbers through the strict decoder
+    from .c07 import r07_10
+    ctx.guard_as("R11.16", r07_10)  # "importing the result yields identical material": oct import keeps the octets it was given
     from .c19 import r19_4_5
     ctx.guard_as("R11.14", r19_4_5)  # "undecodable values are refused": JWK integers are read through the strict base64url decoder  # "importing a JWK then exporting it returns the members that were given": exports never alias the key's dict
     ctx.assume("pyca serialisation (PEM / DER / numbers) is faithful and validates points and RSA parameters")
